@@ -3,7 +3,7 @@
    such history, and the theorems that follow from it. *)
 From Coq Require Import Arith Lia Bool List NArith Permutation.
 From Mkdb Require Import Model.Engine Proofs.TreeProofs Proofs.StoreInv Proofs.CrashBase Proofs.CrashPages
-  Proofs.CrashRedo Proofs.CrashLog Proofs.CrashMain Proofs.CrashPrefix Gen.Params.
+  Proofs.CrashRedo Proofs.CrashLog Proofs.CrashMain Proofs.CrashPrefix Proofs.CrashTorn Proofs.CrashTornInv Gen.Params.
 Import ListNotations.
 Local Open Scope N_scope.
 
@@ -13,7 +13,7 @@ Definition ev_ok (y : sys) (ev : event) : Prop :=
   | EvStmt st => stmt_ok (mem y) st
   | EvFlush | EvCrash => True
   | EvCrashInLog st _ => stmt_ok (mem y) st
-  | EvTornFlush _ => False
+  | EvTornFlush _ => True     (* when the model has no torn file for W the step fails and the history ends *)
   end.
 
 Lemma flushed_shape s st :
@@ -64,26 +64,50 @@ Fixpoint hist_ok (y : sys) (evs : list event) : Prop :=
   | ev :: r => ev_ok y ev /\ match step y ev with (SOk y1, _) => hist_ok y1 r | _ => True end
   end.
 
-Lemma inv_step y ev y1 o : Inv y -> ev_ok y ev -> step y ev = (SOk y1, o) -> Inv y1.
+(* the two invariants together: Inv (log replays to the cache; every record inert on the cache) and
+   TornInv (the log splits into records inert on the data file and LSN-sorted newer ones) *)
+Definition Inv2 (y : sys) : Prop := Inv y /\ TornInv y.
+
+Lemma inv2_step y ev y1 o : Inv2 y -> ev_ok y ev -> step y ev = (SOk y1, o) -> Inv2 y1.
 Proof.
-  intros HI Hok Hs. destruct ev; cbn [ev_ok] in Hok; try contradiction; [cbn [step] in Hs .. | idtac].
-  - pose proof (inv_stmt y st HI Hok) as H1. destruct (exec y st) as [y2 o2]. cbn [fst] in H1.
-    destruct o2; inversion Hs; subst; exact H1.
-  - inversion Hs; subst. apply inv_flush. exact HI.
-  - destruct (inv_recover y HI) as (r & _ & Hrec & _ & _ & HI1). rewrite Hrec in Hs. inversion Hs; subst. exact HI1.
-  - eapply inv_crash_in_log; eauto.
+  intros [HI HT] Hok Hs. destruct ev; cbn [ev_ok] in Hok.
+  - cbn [step] in Hs. pose proof (inv_stmt y st HI Hok) as H1. pose proof (tinv_stmt y st HI HT) as H2.
+    destruct (exec y st) as [y2 o2]. cbn [fst] in H1, H2.
+    destruct o2; inversion Hs; subst; split; assumption.
+  - cbn [step] in Hs. inversion Hs; subst. pose proof (inv_flush y HI) as HI1. split; [exact HI1|].
+    destruct HI1 as (r & _ & _ & _ & HGL). cbn [do_flush mem disk wal] in *.
+    apply tinv_synced; cbn [mem disk wal]; [exact HGL | apply flush_clean | apply N.le_refl].
+  - cbn [step] in Hs. destruct (inv_recover y HI) as (r & _ & Hrec & _ & _ & HI1). rewrite Hrec in Hs. inversion Hs; subst.
+    split; [exact HI1|]. destruct (recover_shape _ _ Hrec) as [A B]. apply tinv_after_recover; assumption.
+  - pose proof (inv_crash_in_log y st j y1 o HI Hok Hs) as HI1. split; [exact HI1|].
+    cbn [step] in Hs.
+    match type of Hs with context [recover ?a] => destruct (recover a) as [y2|e|] eqn:Er end; inversion Hs; subst.
+    destruct (recover_shape _ _ Er) as [A B]. apply tinv_after_recover; assumption.
+  - cbn [step] in Hs. destruct (torn_disk y W) as [d|] eqn:Et; [|discriminate].
+    destruct (torn_flush_inv y W d HI HT Et) as (y' & Hrec & _ & _ & _ & HI' & HT').
+    rewrite Hrec in Hs. inversion Hs; subst. split; assumption.
 Qed.
 
-Theorem inv_run evs : forall y y' os,
-  Inv y -> hist_ok y evs -> run_events y evs = (SOk y', os) -> Inv y'.
+Lemma inv_step y ev y1 o : Inv2 y -> ev_ok y ev -> step y ev = (SOk y1, o) -> Inv y1.
+Proof. intros H A B. apply (inv2_step y ev y1 o H A B). Qed.
+
+Lemma inv2_init : Inv2 init_sys.
+Proof. split; [apply inv_init | apply tinv_init]. Qed.
+
+Theorem inv2_run evs : forall y y' os,
+  Inv2 y -> hist_ok y evs -> run_events y evs = (SOk y', os) -> Inv2 y'.
 Proof.
   induction evs as [|ev r IH]; intros y y' os HI Hok Hr.
   - cbn in Hr. inversion Hr; subst. exact HI.
   - cbn [hist_ok] in Hok. destruct Hok as [Hev Hrest]. cbn [run_events] in Hr.
     destruct (step y ev) as [[y1|e|] o] eqn:Es; try discriminate.
     destruct (run_events y1 r) as [fin os'] eqn:Er. inversion Hr; subst.
-    eapply IH; [eapply inv_step; eauto | exact Hrest | exact Er].
+    eapply IH; [eapply inv2_step; eauto | exact Hrest | exact Er].
 Qed.
+
+Theorem inv_run evs : forall y y' os,
+  Inv2 y -> hist_ok y evs -> run_events y evs = (SOk y', os) -> Inv y'.
+Proof. intros y y' os H A B. apply (inv2_run evs y y' os H A B). Qed.
 
 (* the model never fails or panics in recovery along such a history *)
 Lemma step_crash_ok y : Inv y -> exists y1, step y EvCrash = (SOk y1, None).
@@ -95,8 +119,11 @@ Qed.
 Definition reachable_c (y : sys) : Prop :=
   exists evs os, hist_ok init_sys evs /\ run_events init_sys evs = (SOk y, os).
 
+Lemma reachable_inv2 y : reachable_c y -> Inv2 y.
+Proof. intros (evs & os & Hok & Hr). eapply inv2_run; [apply inv2_init | exact Hok | exact Hr]. Qed.
+
 Lemma reachable_inv_c y : reachable_c y -> Inv y.
-Proof. intros (evs & os & Hok & Hr). eapply inv_run; [apply inv_init | exact Hok | exact Hr]. Qed.
+Proof. intros H. apply (reachable_inv2 y H). Qed.
 
 Theorem recovery_restores y : reachable_c y ->
   exists y', recover y = Ok y' /\ seq (mem y') (mem y) /\ abs (mem y') = abs (mem y) /\
@@ -147,4 +174,28 @@ Proof.
   intros Hy. destruct (inv_flush y (reachable_inv_c y Hy)) as (r & Hrep & _ & _ & [G L]).
   unfold do_flush in *. cbn [mem disk wal] in *. unfold recover. cbn [disk wal].
   rewrite (replay_inert _ _ G L), flush_flush. reflexivity.
+Qed.
+
+(* C04, in-place case, for every reachable system *)
+Theorem torn_flush_recovers y W d :
+  reachable_c y -> torn_disk y W = Some d ->
+  exists y', recover (mkSys d d (wal y)) = Ok y' /\ seq (mem y') (mem y) /\ abs (mem y') = abs (mem y) /\
+             step y (EvTornFlush W) = (SOk y', None) /\ Good (mem y') /\ reachable_c y'.
+Proof.
+  intros Hy Htd. destruct (reachable_inv2 y Hy) as [HI HT].
+  destruct (torn_flush_inv y W d HI HT Htd) as (y' & Hrec & S & A & Hst & HI' & HT').
+  exists y'. split; [exact Hrec|]. split; [exact S|]. split; [exact A|]. split; [exact Hst|].
+  split; [destruct HI' as (_ & _ & _ & _ & [G _]); exact G|].
+  destruct Hy as (evs & os & Hok & Hr). exists (evs ++ [EvTornFlush W]).
+  assert (G : forall evs y0 os0, hist_ok y0 evs -> run_events y0 evs = (SOk y, os0) ->
+              exists os', hist_ok y0 (evs ++ [EvTornFlush W]) /\ run_events y0 (evs ++ [EvTornFlush W]) = (SOk y', os')).
+  { clear evs os Hok Hr. induction evs as [|ev r IH]; intros y0 os0 Hok Hr.
+    - cbn in Hr. inversion Hr; subst y0. cbn [app hist_ok run_events ev_ok]. rewrite Hst.
+      eexists. split; [split; [exact I | exact I] | reflexivity].
+    - cbn [hist_ok] in Hok. destruct Hok as [Hev Hrest]. cbn [run_events] in Hr.
+      destruct (step y0 ev) as [[y2|e|] o] eqn:Es; try discriminate.
+      destruct (run_events y2 r) as [fin os'] eqn:Er. inversion Hr; subst.
+      destruct (IH y2 os' Hrest Er) as (os2 & A1 & B1).
+      cbn [app hist_ok run_events]. rewrite Es, B1. eexists. split; [split; [exact Hev | exact A1] | reflexivity]. }
+  destruct (G evs init_sys os Hok Hr) as (os' & A1 & B1). exists os'. auto.
 Qed.
